@@ -239,7 +239,9 @@ func c08Print(e ast.Expr) string {
 // `if allowed <= 0 {`, which must be followed by the two take sites `wr.stream.flow.take(allowed)` and
 // `wr.stream.flow.take(int32(len(wd.p)))`.
 func c08LiftConsume(p *Pkg) error {
-	fd, err := p.Func("FrameWriteRequest.Consume")
+	// server_wrap.go (build tag go1.27 && !http2legacy) carries a stub with the same name: take the
+	// declaration from writesched.go explicitly.
+	fd, err := c08FuncIn(p, "writesched.go", "FrameWriteRequest", "Consume")
 	if err != nil {
 		return err
 	}
@@ -292,7 +294,7 @@ func c08LiftConsume(p *Pkg) error {
 //
 // from the body of `if a := cs.flow.available(); a > 0 { ...; cs.flow.take(take); return take, nil }`.
 func c08LiftAwait(p *Pkg) error {
-	fd, err := p.Func("clientStream.awaitFlowControl")
+	fd, err := c08FuncIn(p, "transport.go", "clientStream", "awaitFlowControl")
 	if err != nil {
 		return err
 	}
@@ -332,4 +334,19 @@ func c08LiftAwait(p *Pkg) error {
 	body = append(body, &ast.ReturnStmt{Results: []ast.Expr{ast.NewIdent("take")}})
 	return c08AddFunc(p, "transport.go", "verifAwaitTake",
 		[]*ast.Field{c08Param("a", "int32"), c08Param("maxBytes", "int"), c08Param("maxFrameSize", "uint32")}, "int32", body)
+}
+
+// c08FuncIn finds method recv.name declared in the given file.
+func c08FuncIn(p *Pkg, file, recv, name string) (*ast.FuncDecl, error) {
+	f, ok := p.Files[file]
+	if !ok {
+		return nil, fmt.Errorf("file %s not loaded", file)
+	}
+	for _, d := range f.Decls {
+		fd, ok := d.(*ast.FuncDecl)
+		if ok && fd.Name.Name == name && fd.Recv != nil && len(fd.Recv.List) == 1 && baseTypeName(fd.Recv.List[0].Type) == recv && fd.Body != nil {
+			return fd, nil
+		}
+	}
+	return nil, fmt.Errorf("%s.%s not found in %s", recv, name, file)
 }
